@@ -65,6 +65,9 @@ SCENARIOS = {
     'flapping': dict(callers=[[('comm', 1), ('sleep', 1), ('comm', 2), ('sleep', 2.5), ('comm', 3), ('sleep', 0.5), ('comm', 4),
                                ('sleep', 0.5), ('comm', 5), ('sleep', 3), ('comm', 6)]],
                      behaviour={1: ('close',), 3: ('close',)}, callbacks=1, horizon=40),
+    'flapping_oneshot': dict(callers=[[('comm', 1), ('sleep', 1), ('comm', 2), ('sleep', 2.5), ('comm', 3), ('sleep', 0.5), ('comm', 4),
+                                       ('sleep', 0.5), ('comm', 5), ('sleep', 3), ('comm', 6)]],
+                             behaviour={1: ('close',), 3: ('close',)}, callbacks=2, oneshot=1, horizon=40),
     'flapping_two': dict(callers=[[('comm', 1), ('sleep', 3.2), ('comm', 2), ('sleep', 1), ('comm', 3), ('sleep', 3), ('comm', 4)],
                                   [('sleep', 3.4), ('comm', 5), ('sleep', 1), ('comm', 6), ('sleep', 0.4), ('comm', 7)]],
                          behaviour={1: ('close',), 5: ('close',)}, callbacks=2, horizon=40),
@@ -141,6 +144,9 @@ IOSCEN = {
     'io_alone': dict(sensors=[], pollinterval=3, close_at=5.2, refuse=1, callbacks=1, horizon=24,
                      users=[[('sleep', 6), ('comm', 1)]]),
     # two outages: healing and the immediate polls after the reconnect work every time, not only the first time
+    # a one-shot reconnect callback (returns False) registered before the permanent ones: everybody runs once at the
+    # first reconnect, the permanent ones at every later one, polling resumes every time
+    'io_oneshot_twice': dict(sensors=[8], pollinterval=3, close_at=[5.3, 21.4], refuse=0, callbacks=2, oneshot=1, horizon=44),
     'io_heal_twice': dict(sensors=[8, 9], pollinterval=3, close_at=[5.3, 21.4], refuse=1, callbacks=1, horizon=44),
     'io_slow_sensor': dict(sensors=[8, 3], pollinterval=3, close_at=9.5, refuse=0, callbacks=1, horizon=36),
 }
@@ -157,7 +163,7 @@ T0 = 1000000.0
 
 
 def alpha(r, sc):
-    tr = [{'ev': 'cfg', 'ncb': sc.get('callbacks', 0), 'nsens': len(sc.get('sensors', ()))}]
+    tr = [{'ev': 'cfg', 'ncb': sc.get('callbacks', 0) + sc.get('oneshot', 0), 'nsens': len(sc.get('sensors', ()))}]
     for e in r['events']:
         t = int(round((e['vt'] - T0) * 10))
         ev = e['ev']
